@@ -103,7 +103,7 @@ def direct(p1, p2, m1, m2, box, selfo, k):
 
 def make_cases(rng, thorough):
     cases = []
-    for it in range(120 if thorough else 6):
+    for it in range(120 if thorough else 8):
         selfo = bool(it % 2 == 0)
         F = int(rng.integers(1, 4))
         n1 = int(rng.choice([2, 3, 5, 8, 13, 24, 37]))
@@ -115,6 +115,12 @@ def make_cases(rng, thorough):
         nm = int(rng.integers(1, 4))
         m1 = rng.integers(0, nm, n1)
         m2 = m1 if selfo else rng.integers(0, nm, n2)
+        # "for any molecule labels": the labels only say which sites share a molecule - small consecutive integers, but also
+        # labels beyond 32 bits (ids composed from several fields), negative ones, and multiples of 2^32 (equal low words)
+        style = it % 4
+        relabel = {0: lambda m: m, 1: lambda m: m + 2 ** 31 + 5, 2: lambda m: (m + 1) * 2 ** 32, 3: lambda m: -7 - 3 * m}[style]
+        m1 = relabel(m1.astype(np.int64))
+        m2 = m1 if selfo else relabel(m2.astype(np.int64))
         nts = sorted(set([1, 2, 3, 5, 7, 16, max(n1 - 1, 1), n1, n1 + 3]))
         cases.append({'self': selfo, 'p1': p1.tolist(), 'p2': p2.tolist(), 'm1': m1.tolist(), 'm2': m2.tolist(), 'box': box.tolist(),
                       'dk': 0.1 if it % 3 else 0.37, 'bins': 24, 'nthreads': nts})
